@@ -42,3 +42,51 @@ func VerifC14_gslbInit() {
 		vrt.Assert(b1.avail == b2.avail, "C14/gslb-same-avail")
 	}
 }
+
+var reloadNamesC14 = []string{"sub-b", "sub-a", "sub-c"}
+
+// VerifC14_gslbReload ("... independent of map iteration order, process, or reload count"): a balancer that
+// reached configuration NEW by Init(OLD) + Reload(NEW), with Reload's map range in every order, must hold the
+// same sub-cluster list (names in the same order, weights, types), total weight and single/avail as a balancer
+// of a freshly started process, Init(NEW). OLD and NEW are non-empty subsets of three names (so sub clusters
+// are retired, kept and introduced in every combination); OLD weights are 1, NEW weights symbolic.
+func VerifC14_gslbReload() {
+	oldSet := vrt.Range("old-subset", 1, 7)
+	newSet := vrt.Range("new-subset", 1, 7)
+	oldConf, newConf := gslb_conf.GslbClusterConf{}, gslb_conf.GslbClusterConf{}
+	n := 0
+	for i, name := range reloadNamesC14 {
+		if oldSet&(1<<uint(i)) != 0 {
+			oldConf[name] = 1
+		}
+		if newSet&(1<<uint(i)) != 0 {
+			w := vrt.Int("weight")
+			vrt.Assume(w >= -1 && w <= 1000)
+			newConf[name] = w
+			n++
+		}
+	}
+	fresh, reloaded := NewBalanceGslb("c"), NewBalanceGslb("c")
+	e1 := fresh.Init(newConf)
+	if err := reloaded.Init(oldConf); err != nil {
+		panic("C14 harness: old configuration rejected")
+	}
+	vrt.MapOrder(true)
+	e2 := reloaded.Reload(newConf)
+	vrt.MapOrder(false)
+	vrt.Assert((e1 == nil) == (e2 == nil), "C14/gslb-reload-accept-as-fresh")
+	if e1 != nil || e2 != nil {
+		return
+	}
+	vrt.Assert(len(fresh.subClusters) == n && len(reloaded.subClusters) == n, "C14/gslb-reload-all-subclusters")
+	for i := 0; i < n; i++ {
+		vrt.Assert(fresh.subClusters[i].Name == reloaded.subClusters[i].Name, "C14/gslb-reload-same-order")
+		vrt.Assert(fresh.subClusters[i].weight == reloaded.subClusters[i].weight, "C14/gslb-reload-same-weights")
+		vrt.Assert(fresh.subClusters[i].sType == reloaded.subClusters[i].sType, "C14/gslb-reload-same-type")
+	}
+	vrt.Assert(fresh.totalWeight == reloaded.totalWeight, "C14/gslb-reload-same-total")
+	vrt.Assert(fresh.single == reloaded.single, "C14/gslb-reload-same-single")
+	if fresh.single {
+		vrt.Assert(fresh.avail == reloaded.avail, "C14/gslb-reload-same-avail")
+	}
+}
